@@ -312,6 +312,10 @@ func c06(c *Ctx) {
 		scs = append(scs, LifeScenario{Cause: cause, Closers: 1, Flood: true, CloseInDiscHandler: true, AfterLines: 1},
 			LifeScenario{Cause: stalledCause, Closers: 1, Flood: true, UseCtx: true, SlowServer: true, PeerStalled: true, InBacklog: 80, InSegments: 2, BacklogKind: "pings"})
 		tags = append(tags, "close-inside-disconnected-handler", "peer-stalled+backlog-of-pings")
+		// the same PINGs, not held back by a gated handler: the built-in handler is in the middle of answering them (its
+		// answers have nowhere to go) when the client ends the connection
+		scs = append(scs, LifeScenario{Cause: stalledCause, Closers: 1, Flood: true, UseCtx: true, SlowServer: true, PeerStalled: true, LivePings: 80})
+		tags = append(tags, "peer-stalled+pings-being-answered")
 	}
 	// a user goroutine is still handing over lines when the connection ends (nobody waits for it; what it had left is lost
 	// with the connection); a goroutine woken by the DISCONNECTED handler connects again
@@ -465,6 +469,10 @@ func c07(c *Ctx) {
 		scs = append(scs, LifeScenario{Cause: cause, Closers: 1, Flood: true, CloseInDiscHandler: true, AfterLines: 1},
 			LifeScenario{Cause: stalledCause, Closers: 1, Flood: true, UseCtx: true, SlowServer: true, PeerStalled: true, InBacklog: 80, InSegments: 2, BacklogKind: "pings"})
 		tags = append(tags, "close-inside-disconnected-handler", "peer-stalled+backlog-of-pings")
+		// the same PINGs, not held back by a gated handler: the built-in handler is in the middle of answering them (its
+		// answers have nowhere to go) when the client ends the connection
+		scs = append(scs, LifeScenario{Cause: stalledCause, Closers: 1, Flood: true, UseCtx: true, SlowServer: true, PeerStalled: true, LivePings: 80})
+		tags = append(tags, "peer-stalled+pings-being-answered")
 	}
 	// a user goroutine is still handing over lines when the connection ends (nobody waits for it; what it had left is lost
 	// with the connection); a goroutine woken by the DISCONNECTED handler connects again
